@@ -304,10 +304,13 @@ def _shard(seed, shard, n_bases):
                 obs["bases_deviating"] = obs.get("bases_deviating", 0) + 1
             else:
                 obs["bases_ok"] += 1
-            for ri in range(4 if not base_bad else 2):
-                rw = rng.choice(REWRITES)
-                if ri == 0 and prog.get("boundary_at"):
-                    rw = rw_let_prefix
+            # every rewrite kind that applies to this base is tried once (the structural ones first:
+            # filter split/merge apply to few bases and must not depend on being drawn), then random extras
+            plan = [rw_split_filter, rw_merge_filters, rw_let_prefix] + [rng.choice(REWRITES) for _ in range(3)]
+            if base_bad:
+                plan = plan[:4]
+            for ri, rw in enumerate(plan):
+                if rw is rw_let_prefix and ri == 2 and prog.get("boundary_at"):
                     if not base_bad and o.sql:
                         obs["boundary_pairs"].add(tuple(prog["boundary"]))
                 try:
